@@ -2,8 +2,9 @@
 use gixsim_rt::driver::Scenario;
 
 pub mod fetch;
+pub mod status;
 pub mod transport;
 
 pub fn all() -> Vec<&'static dyn Scenario> {
-    vec![&transport::Transport, &fetch::Fetch]
+    vec![&transport::Transport, &fetch::Fetch, &status::StatusClock]
 }
